@@ -59,6 +59,14 @@ func main() {
 	flag.Parse()
 	report := map[string]any{}
 	replace := map[string]string{}
+	baseReplace := map[string]string{}
+	if *baseOv != "" {
+		var ov struct{ Replace map[string]string }
+		if b, err := os.ReadFile(*baseOv); err == nil {
+			_ = json.Unmarshal(b, &ov)
+			baseReplace = ov.Replace
+		}
+	}
 	for _, pkg := range flag.Args() {
 		dir := repoGo + pkg
 		ents, err := os.ReadDir(dir)
@@ -67,7 +75,7 @@ func main() {
 		}
 		var files []string
 		h := sha256.New()
-		h.Write([]byte("mapseam-v3\n"))
+		h.Write([]byte("mapseam-v4\n"))
 		srcOf := map[string][]byte{}
 		for _, e := range ents {
 			n := e.Name()
@@ -80,6 +88,11 @@ func main() {
 				if mp := filepath.Join(*mut, strings.TrimPrefix(p, "/repo/")); exists(mp) {
 					src = mp
 				}
+			}
+			// a file already rewritten by an earlier seam (clock, keytap ...) is taken in that form:
+			// this seam's replacement supersedes the earlier one in the final overlay
+			if rp, ok := baseReplace[p]; ok && exists(rp) {
+				src = rp
 			}
 			b, err := os.ReadFile(src)
 			if err != nil {
